@@ -95,6 +95,13 @@ impl Property for C13 {
     fn max_shrink_iters(&self) -> u32 {
         600
     }
+    /// coverage-guided phase: runs per job, set by what one case costs under instrumentation
+    fn fuzz_runs(&self, tier: Tier) -> u64 {
+        match tier {
+            Tier::Quick => 0,
+            Tier::Thorough => 300,
+        }
+    }
     fn cases(&self, tier: Tier) -> u64 {
         match tier {
             Tier::Quick => 2500,
